@@ -20,6 +20,114 @@ pub enum Spec {
     Synthetic { kind: u8, material: Vec<u8>, sha512: bool },
     /// a layout document whose key table files keys under wrong identifiers
     Table { keys: Vec<KeySpec>, filing: Vec<(usize, u8)>, lie_keyid: bool },
+    /// history: other imports (damaged, unusual or clean ones) happen first in the same process, then `Paths`
+    After { prelude: Vec<Noise>, key: KeySpec },
+}
+
+/// An import attempt whose outcome is not judged; it only precedes the judged imports.
+#[derive(Clone, Debug, Serialize, Deserialize)]
+pub enum Noise {
+    /// PKCS#8 private key of a pool key: 0 = with an (empty) RFC 5208 `attributes [0]` member appended inside the
+    /// outer SEQUENCE, 1 = with a non-empty attributes member, 2 = truncated at `pos`, 3 = one byte changed at `pos`,
+    /// 4 = trailing bytes after the SEQUENCE, 5 = offered under another algorithm's scheme, 6.. = clean
+    Pkcs8 { key: KeySpec, damage: u8, pos: u16 },
+    /// the same for the SubjectPublicKeyInfo (DER or PEM)
+    Spki { key: KeySpec, damage: u8, pos: u16, pem: bool },
+    /// a JSON key document with a member removed or retyped
+    Json { key: KeySpec, damage: u8 },
+}
+
+fn append_inside_outer_sequence(der: &[u8], extra: &[u8]) -> Vec<u8> {
+    // der = 30 <len> <content>
+    if der.len() < 2 || der[0] != 0x30 {
+        return der.to_vec();
+    }
+    let (hdr, _) = if der[1] & 0x80 == 0 { (2usize, der[1] as usize) } else { (2 + (der[1] & 0x7f) as usize, 0) };
+    if der.len() < hdr {
+        return der.to_vec();
+    }
+    let mut content = der[hdr..].to_vec();
+    content.extend_from_slice(extra);
+    der_tlv(0x30, &content)
+}
+
+fn damage_der(der: &[u8], damage: u8, pos: u16) -> Vec<u8> {
+    match damage {
+        0 => append_inside_outer_sequence(der, &[0xa0, 0x00]),
+        // attributes: SET OF Attribute { keyUsage-ish OID, SET { BIT STRING } }
+        1 => append_inside_outer_sequence(der, &[0xa0, 0x0d, 0x30, 0x0b, 0x06, 0x03, 0x55, 0x1d, 0x0f, 0x31, 0x04, 0x03, 0x02, 0x00, 0x80]),
+        2 => der[..(pos as usize) % der.len().max(1)].to_vec(),
+        3 => {
+            let mut v = der.to_vec();
+            if !v.is_empty() {
+                let i = (pos as usize) % v.len();
+                v[i] ^= 1 << (pos % 8);
+            }
+            v
+        }
+        4 => {
+            let mut v = der.to_vec();
+            v.extend_from_slice(&[0x05, 0x00]);
+            v
+        }
+        _ => der.to_vec(),
+    }
+}
+
+impl Noise {
+    fn class(&self) -> String {
+        match self {
+            Noise::Pkcs8 { key, damage, .. } => format!("pkcs8:{}:{}", key.kind().split('-').next().unwrap_or(""), (*damage).min(6)),
+            Noise::Spki { key, damage, pem, .. } => format!("spki{}:{}:{}", if *pem { "-pem" } else { "" }, key.kind().split('-').next().unwrap_or(""), (*damage).min(6)),
+            Noise::Json { key, damage } => format!("json:{}:{}", key.kind().split('-').next().unwrap_or(""), damage % 4),
+        }
+    }
+    fn run(&self) {
+        match self {
+            Noise::Pkcs8 { key, damage, pos } => {
+                let pk8 = pkcs8_of(key);
+                let scheme = if *damage == 5 { other_scheme(key) } else { scheme_of(key) };
+                let _ = PrivateKey::from_pkcs8(&damage_der(&pk8, *damage, *pos), scheme);
+            }
+            Noise::Spki { key, damage, pos, pem } => {
+                let (der, _) = standard_spki(key);
+                let scheme = if *damage == 5 { other_scheme(key) } else { scheme_of(key) };
+                let d = damage_der(&der, *damage, *pos);
+                if *pem {
+                    let _ = PublicKey::from_pem_spki(&pem_public(&d), scheme);
+                } else {
+                    let _ = PublicKey::from_spki(&d, scheme);
+                }
+            }
+            Noise::Json { key, damage } => {
+                let d = describe(key);
+                let mut doc = json!({"keytype": d.keytype, "scheme": d.scheme, "keyid_hash_algorithms": ["sha256", "sha512"], "keyval": {"public": d.public}});
+                match damage % 4 {
+                    0 => doc["keyval"] = json!({}),
+                    1 => doc["scheme"] = json!("rsa-pkcs1v15-sha256"),
+                    2 => doc["keyval"]["public"] = json!(format!("{}00", d.public)),
+                    _ => doc["keytype"] = json!("ecdsa-sha2-nistp384"),
+                }
+                let _ = serde_json::from_value::<PublicKey>(doc);
+            }
+        }
+    }
+}
+
+fn pkcs8_of(key: &KeySpec) -> Vec<u8> {
+    match key {
+        KeySpec::Ed { seed, .. } => ed_pkcs8(*seed),
+        KeySpec::Ec { idx } => corpus_file(&format!("ecdsa-{}.pk8.der", idx % ECDSA_POOL)),
+        KeySpec::Rsa { idx, .. } => corpus_file(&format!("{}.pk8.der", RSA_POOL[idx % RSA_POOL.len()])),
+    }
+}
+
+fn other_scheme(k: &KeySpec) -> SignatureScheme {
+    match k {
+        KeySpec::Ed { .. } => SignatureScheme::EcdsaP256Sha256,
+        KeySpec::Ec { .. } => SignatureScheme::RsaSsaPssSha256,
+        KeySpec::Rsa { .. } => SignatureScheme::Ed25519,
+    }
 }
 
 fn kid(k: &PublicKey) -> String {
@@ -75,6 +183,165 @@ fn check_spki_roundtrip(der: &[u8], scheme: SignatureScheme, label: &str, o: &mu
     }
 }
 
+fn check_paths(key: &KeySpec, o: &mut Outcome) {
+        o.class(format!("paths:{}", key.kind()));
+        o.nontrivial(format!("{:?}", key));
+        let scheme = scheme_of(key);
+        let (der, raw) = standard_spki(key);
+        let pem = pem_public(&der);
+        let mut obs: Vec<Obs> = vec![];
+        // SPKI paths (default list)
+        let imported = check_spki_roundtrip(&der, scheme.clone(), key.kind().split('-').next().unwrap_or("key"), o);
+        obs.push(Obs { path: "from_spki", key: imported.ok_or_else(|| "rejected".to_string()), list: true });
+        obs.push(Obs {
+            path: "from_pem_spki",
+            key: match guarded(|| PublicKey::from_pem_spki(&pem, scheme.clone())) {
+                Ok(r) => r.map_err(|e| e.to_string()),
+                Err(pi) => Err(format!("panic {}", pi.message)),
+            },
+            list: true,
+        });
+        // private key derivation (default list)
+        let pk8 = match key {
+            KeySpec::Ed { seed, .. } => ed_pkcs8(*seed),
+            KeySpec::Ec { idx } => corpus_file(&format!("ecdsa-{}.pk8.der", idx % ECDSA_POOL)),
+            KeySpec::Rsa { idx, .. } => corpus_file(&format!("{}.pk8.der", RSA_POOL[idx % RSA_POOL.len()])),
+        };
+        obs.push(Obs { path: "from_pkcs8", key: PrivateKey::from_pkcs8(&pk8, scheme.clone()).map(|k| k.public().clone()).map_err(|e| e.to_string()), list: true });
+        // raw paths (list absent)
+        match key {
+            KeySpec::Ed { seed, .. } => {
+                obs.push(Obs { path: "from_ed25519", key: PublicKey::from_ed25519(raw.clone()).map_err(|e| e.to_string()), list: false });
+                obs.push(Obs {
+                    path: "from_ed25519_with_list",
+                    key: PublicKey::from_ed25519_with_keyid_hash_algorithms(raw.clone(), Some(vec!["sha256".into(), "sha512".into()])).map_err(|e| e.to_string()),
+                    list: true,
+                });
+                let mut kp = ed_seed_bytes(*seed).to_vec();
+                kp.extend_from_slice(&raw);
+                obs.push(Obs { path: "private_from_ed25519", key: PrivateKey::from_ed25519(&kp).map(|k| k.public().clone()).map_err(|e| e.to_string()), list: false });
+            }
+            KeySpec::Ec { .. } => {
+                obs.push(Obs { path: "from_ecdsa", key: PublicKey::from_ecdsa(raw.clone()).map_err(|e| e.to_string()), list: false });
+                obs.push(Obs {
+                    path: "from_ecdsa_with_list",
+                    key: PublicKey::from_ecdsa_with_keyid_hash_algorithms(raw.clone(), Some(vec!["sha256".into(), "sha512".into()])).map_err(|e| e.to_string()),
+                    list: true,
+                });
+            }
+            _ => {}
+        }
+        // JSON paths, both list variants
+        for list in [true, false] {
+            let mut d = describe(key);
+            d.hash_algs = list;
+            let id = reference_key_id_of(&d);
+            let mut doc = json!({"keytype": d.keytype, "scheme": d.scheme, "keyval": {"public": d.public}});
+            if list {
+                doc["keyid_hash_algorithms"] = json!(["sha256", "sha512"]);
+            }
+            obs.push(Obs { path: if list { "json_with_list" } else { "json_without_list" }, key: serde_json::from_value::<PublicKey>(doc.clone()).map_err(|e| e.to_string()), list });
+            // a lying keyid member must not be trusted
+            doc["keyid"] = json!("0".repeat(64));
+            if let Ok(k) = serde_json::from_value::<PublicKey>(doc) {
+                if kid(&k) != id {
+                    o.fail("C12/json/keyid-member-trusted", format!("key id {} taken from the document", kid(&k)), format!("intrinsic id {}", id));
+                }
+            }
+        }
+        // unusual but representable hash-algorithm lists: the id is that of the key's own description and survives JSON
+        for list in [vec![], vec!["sha256"], vec!["sha512", "sha256"], vec!["md5", "x"]] {
+            let d = describe(key);
+            let want = reference_key_id_with_list(&d, Some(&list));
+            let doc = json!({"keytype": d.keytype, "scheme": d.scheme, "keyid_hash_algorithms": list, "keyval": {"public": d.public}});
+            if let Ok(k) = serde_json::from_value::<PublicKey>(doc) {
+                o.evals += 1;
+                if kid(&k) != want {
+                    o.fail(format!("C12/keyid/{}/json-list-{}", key.kind().split('-').next().unwrap_or(""), list.len()), format!("key_id = {} for keyid_hash_algorithms {:?}", kid(&k), list), format!("reference formula = {}", want));
+                }
+                let j = serde_json::to_value(&k).expect("ser key");
+                match serde_json::from_value::<PublicKey>(j.clone()) {
+                    Ok(k2) if k2 == k && k2.key_id() == k.key_id() => {}
+                    other => o.fail(format!("C12/json-roundtrip/list-{}", list.len()), format!("{:?} after JSON round trip of {}", other.map(|x| kid(&x)), j), "equal key and id"),
+                }
+            }
+        }
+        // RSA: the key id is intrinsic, whatever line ends / trailing newline the PEM text in the document uses
+        if let KeySpec::Rsa { .. } = key {
+            let d = describe(key);
+            let want = reference_key_id_of(&d);
+            for (name, text) in [
+                ("crlf", d.public.replace('\n', "\r\n")),
+                ("trailing-newline", format!("{}\n", d.public)),
+                ("leading-blank-line", format!("\n{}", d.public)),
+            ] {
+                let doc = json!({"keytype": d.keytype, "scheme": d.scheme, "keyid_hash_algorithms": ["sha256", "sha512"], "keyval": {"public": text}});
+                if let Ok(k) = serde_json::from_value::<PublicKey>(doc) {
+                    o.evals += 1;
+                    if kid(&k) != want {
+                        o.fail(format!("C12/keyid/rsa/pem-formatting-{}", name), format!("key_id = {}", kid(&k)), format!("intrinsic id {}", want));
+                    }
+                }
+            }
+        }
+        for ob in &obs {
+            let mut d = describe(key);
+            d.hash_algs = ob.list;
+            let want = reference_key_id_of(&d);
+            match &ob.key {
+                Err(e) => {
+                    if ob.path != "from_spki" {
+                        o.fail(format!("C12/path/{}/{}/rejected", key.kind().split('-').next().unwrap_or(""), ob.path), e.clone(), "a key");
+                    }
+                }
+                Ok(k) => {
+                    o.evals += 1;
+                    if kid(k) != want {
+                        o.fail(format!("C12/keyid/{}/{}", key.kind().split('-').next().unwrap_or(""), ob.path), format!("key_id = {}", kid(k)), format!("reference formula = {}", want));
+                    }
+                    // JSON round trip
+                    let j = serde_json::to_value(k).expect("ser key");
+                    match serde_json::from_value::<PublicKey>(j.clone()) {
+                        Ok(k2) => {
+                            if &k2 != k || k2.key_id() != k.key_id() || serde_json::to_value(&k2).unwrap() != j {
+                                o.fail(format!("C12/json-roundtrip/{}", ob.path), format!("{:?} vs {:?}", k, k2), "equal key, id and JSON");
+                            }
+                        }
+                        Err(e) => o.fail(format!("C12/json-roundtrip/{}/own-json-rejected", ob.path), format!("{}: {}", e, j), "parses back"),
+                    }
+                }
+            }
+        }
+        // equal description => equal key and id across paths
+        for a in &obs {
+            for b in &obs {
+                if let (Ok(ka), Ok(kb)) = (&a.key, &b.key) {
+                    if a.list == b.list && (ka != kb || ka.key_id() != kb.key_id()) {
+                        o.fail(format!("C12/paths-disagree/{}-vs-{}", a.path, b.path), format!("{:?} vs {:?}", ka, kb), "equal keys");
+                    }
+                }
+            }
+        }
+}
+
+fn pool_key() -> BoxedStrategy<KeySpec> {
+    prop_oneof![
+        1 => (any::<u8>(), any::<bool>()).prop_map(|(seed, pkcs8)| KeySpec::Ed { seed, pkcs8 }),
+        1 => (0..ECDSA_POOL).prop_map(|idx| KeySpec::Ec { idx }),
+        2 => (0..RSA_POOL.len(), any::<bool>()).prop_map(|(idx, sha512)| KeySpec::Rsa { idx, sha512 }),
+    ]
+    .boxed()
+}
+
+fn noise() -> BoxedStrategy<Noise> {
+    prop_oneof![
+        3 => (pool_key(), 0u8..8, any::<u16>()).prop_map(|(key, damage, pos)| Noise::Pkcs8 { key, damage, pos }),
+        2 => (pool_key(), 0u8..8, any::<u16>(), any::<bool>()).prop_map(|(key, damage, pos, pem)| Noise::Spki { key, damage, pos, pem }),
+        1 => (pool_key(), 0u8..4).prop_map(|(key, damage)| Noise::Json { key, damage }),
+    ]
+    .boxed()
+}
+
 impl Property for C12 {
     type Spec = Spec;
     fn id() -> &'static str {
@@ -88,7 +355,7 @@ impl Property for C12 {
          (c) layout documents whose key table files keys under a wrong identifier, another key's identifier, or with a lying keyid member. \
          Oracle: key_id == hex(sha256(OLPC(description of that key's own type, scheme, list, material))); equal across paths with equal \
          description; survives JSON->parse->JSON; from_spki(x) = Ok and as_spki() == x; after parsing a layout every (id,key) in the table has \
-         key.key_id()==id. (The end-to-end aliasing clause is exercised in the C02 worlds.) Non-trivial: every case; distinct by (kind, material, variant)."
+         key.key_id()==id. (d) history: (a) preceded in the same process by 1-3 other import attempts whose outcome is not judged (PKCS#8 / SPKI / PEM / JSON of pool keys: with an RFC 5208 attributes member, truncated, one byte changed, trailing bytes, offered under another algorithm's scheme, or clean). (The end-to-end aliasing clause is exercised in the C02 worlds.) Non-trivial: every case; distinct by (kind, material, variant)."
             .into()
     }
     fn assumptions() -> Vec<String> {
@@ -114,151 +381,22 @@ impl Property for C12 {
             ].prop_map(|(kind, material, sha512)| Spec::Synthetic { kind, material, sha512 }),
             3 => (distinct_keys(1, 3, true), proptest::collection::vec((0usize..3, 0u8..4), 1..4), any::<bool>())
                 .prop_map(|(keys, filing, lie_keyid)| Spec::Table { keys, filing, lie_keyid }),
+            2 => (proptest::collection::vec(noise(), 1..4), pool_key()).prop_map(|(prelude, key)| Spec::After { prelude, key }),
         ]
         .boxed()
     }
     fn check(spec: &Spec, _env: &mut Env) -> Outcome {
         let mut o = Outcome::new();
         match spec {
-            Spec::Paths { key } => {
-                o.class(format!("paths:{}", key.kind()));
-                o.nontrivial(format!("{:?}", key));
-                let scheme = scheme_of(key);
-                let (der, raw) = standard_spki(key);
-                let pem = pem_public(&der);
-                let mut obs: Vec<Obs> = vec![];
-                // SPKI paths (default list)
-                let imported = check_spki_roundtrip(&der, scheme.clone(), key.kind().split('-').next().unwrap_or("key"), &mut o);
-                obs.push(Obs { path: "from_spki", key: imported.ok_or_else(|| "rejected".to_string()), list: true });
-                obs.push(Obs {
-                    path: "from_pem_spki",
-                    key: match guarded(|| PublicKey::from_pem_spki(&pem, scheme.clone())) {
-                        Ok(r) => r.map_err(|e| e.to_string()),
-                        Err(pi) => Err(format!("panic {}", pi.message)),
-                    },
-                    list: true,
-                });
-                // private key derivation (default list)
-                let pk8 = match key {
-                    KeySpec::Ed { seed, .. } => ed_pkcs8(*seed),
-                    KeySpec::Ec { idx } => corpus_file(&format!("ecdsa-{}.pk8.der", idx % ECDSA_POOL)),
-                    KeySpec::Rsa { idx, .. } => corpus_file(&format!("{}.pk8.der", RSA_POOL[idx % RSA_POOL.len()])),
-                };
-                obs.push(Obs { path: "from_pkcs8", key: PrivateKey::from_pkcs8(&pk8, scheme.clone()).map(|k| k.public().clone()).map_err(|e| e.to_string()), list: true });
-                // raw paths (list absent)
-                match key {
-                    KeySpec::Ed { seed, .. } => {
-                        obs.push(Obs { path: "from_ed25519", key: PublicKey::from_ed25519(raw.clone()).map_err(|e| e.to_string()), list: false });
-                        obs.push(Obs {
-                            path: "from_ed25519_with_list",
-                            key: PublicKey::from_ed25519_with_keyid_hash_algorithms(raw.clone(), Some(vec!["sha256".into(), "sha512".into()])).map_err(|e| e.to_string()),
-                            list: true,
-                        });
-                        let mut kp = ed_seed_bytes(*seed).to_vec();
-                        kp.extend_from_slice(&raw);
-                        obs.push(Obs { path: "private_from_ed25519", key: PrivateKey::from_ed25519(&kp).map(|k| k.public().clone()).map_err(|e| e.to_string()), list: false });
-                    }
-                    KeySpec::Ec { .. } => {
-                        obs.push(Obs { path: "from_ecdsa", key: PublicKey::from_ecdsa(raw.clone()).map_err(|e| e.to_string()), list: false });
-                        obs.push(Obs {
-                            path: "from_ecdsa_with_list",
-                            key: PublicKey::from_ecdsa_with_keyid_hash_algorithms(raw.clone(), Some(vec!["sha256".into(), "sha512".into()])).map_err(|e| e.to_string()),
-                            list: true,
-                        });
-                    }
-                    _ => {}
+            Spec::Paths { key } => check_paths(key, &mut o),
+            Spec::After { prelude, key } => {
+                o.class("after-other-imports");
+                for n in prelude {
+                    o.class(format!("prelude:{}", n.class()));
+                    let _ = guarded(|| n.run());
                 }
-                // JSON paths, both list variants
-                for list in [true, false] {
-                    let mut d = describe(key);
-                    d.hash_algs = list;
-                    let id = reference_key_id_of(&d);
-                    let mut doc = json!({"keytype": d.keytype, "scheme": d.scheme, "keyval": {"public": d.public}});
-                    if list {
-                        doc["keyid_hash_algorithms"] = json!(["sha256", "sha512"]);
-                    }
-                    obs.push(Obs { path: if list { "json_with_list" } else { "json_without_list" }, key: serde_json::from_value::<PublicKey>(doc.clone()).map_err(|e| e.to_string()), list });
-                    // a lying keyid member must not be trusted
-                    doc["keyid"] = json!("0".repeat(64));
-                    if let Ok(k) = serde_json::from_value::<PublicKey>(doc) {
-                        if kid(&k) != id {
-                            o.fail("C12/json/keyid-member-trusted", format!("key id {} taken from the document", kid(&k)), format!("intrinsic id {}", id));
-                        }
-                    }
-                }
-                // unusual but representable hash-algorithm lists: the id is that of the key's own description and survives JSON
-                for list in [vec![], vec!["sha256"], vec!["sha512", "sha256"], vec!["md5", "x"]] {
-                    let d = describe(key);
-                    let want = reference_key_id_with_list(&d, Some(&list));
-                    let doc = json!({"keytype": d.keytype, "scheme": d.scheme, "keyid_hash_algorithms": list, "keyval": {"public": d.public}});
-                    if let Ok(k) = serde_json::from_value::<PublicKey>(doc) {
-                        o.evals += 1;
-                        if kid(&k) != want {
-                            o.fail(format!("C12/keyid/{}/json-list-{}", key.kind().split('-').next().unwrap_or(""), list.len()), format!("key_id = {} for keyid_hash_algorithms {:?}", kid(&k), list), format!("reference formula = {}", want));
-                        }
-                        let j = serde_json::to_value(&k).expect("ser key");
-                        match serde_json::from_value::<PublicKey>(j.clone()) {
-                            Ok(k2) if k2 == k && k2.key_id() == k.key_id() => {}
-                            other => o.fail(format!("C12/json-roundtrip/list-{}", list.len()), format!("{:?} after JSON round trip of {}", other.map(|x| kid(&x)), j), "equal key and id"),
-                        }
-                    }
-                }
-                // RSA: the key id is intrinsic, whatever line ends / trailing newline the PEM text in the document uses
-                if let KeySpec::Rsa { .. } = key {
-                    let d = describe(key);
-                    let want = reference_key_id_of(&d);
-                    for (name, text) in [
-                        ("crlf", d.public.replace('\n', "\r\n")),
-                        ("trailing-newline", format!("{}\n", d.public)),
-                        ("leading-blank-line", format!("\n{}", d.public)),
-                    ] {
-                        let doc = json!({"keytype": d.keytype, "scheme": d.scheme, "keyid_hash_algorithms": ["sha256", "sha512"], "keyval": {"public": text}});
-                        if let Ok(k) = serde_json::from_value::<PublicKey>(doc) {
-                            o.evals += 1;
-                            if kid(&k) != want {
-                                o.fail(format!("C12/keyid/rsa/pem-formatting-{}", name), format!("key_id = {}", kid(&k)), format!("intrinsic id {}", want));
-                            }
-                        }
-                    }
-                }
-                for ob in &obs {
-                    let mut d = describe(key);
-                    d.hash_algs = ob.list;
-                    let want = reference_key_id_of(&d);
-                    match &ob.key {
-                        Err(e) => {
-                            if ob.path != "from_spki" {
-                                o.fail(format!("C12/path/{}/{}/rejected", key.kind().split('-').next().unwrap_or(""), ob.path), e.clone(), "a key");
-                            }
-                        }
-                        Ok(k) => {
-                            o.evals += 1;
-                            if kid(k) != want {
-                                o.fail(format!("C12/keyid/{}/{}", key.kind().split('-').next().unwrap_or(""), ob.path), format!("key_id = {}", kid(k)), format!("reference formula = {}", want));
-                            }
-                            // JSON round trip
-                            let j = serde_json::to_value(k).expect("ser key");
-                            match serde_json::from_value::<PublicKey>(j.clone()) {
-                                Ok(k2) => {
-                                    if &k2 != k || k2.key_id() != k.key_id() || serde_json::to_value(&k2).unwrap() != j {
-                                        o.fail(format!("C12/json-roundtrip/{}", ob.path), format!("{:?} vs {:?}", k, k2), "equal key, id and JSON");
-                                    }
-                                }
-                                Err(e) => o.fail(format!("C12/json-roundtrip/{}/own-json-rejected", ob.path), format!("{}: {}", e, j), "parses back"),
-                            }
-                        }
-                    }
-                }
-                // equal description => equal key and id across paths
-                for a in &obs {
-                    for b in &obs {
-                        if let (Ok(ka), Ok(kb)) = (&a.key, &b.key) {
-                            if a.list == b.list && (ka != kb || ka.key_id() != kb.key_id()) {
-                                o.fail(format!("C12/paths-disagree/{}-vs-{}", a.path, b.path), format!("{:?} vs {:?}", ka, kb), "equal keys");
-                            }
-                        }
-                    }
-                }
+                check_paths(key, &mut o);
+                o.nontrivial(format!("{:?}|{:?}", prelude, key));
             }
             Spec::Synthetic { kind, material, sha512 } => {
                 o.nontrivial(format!("{}|{}|{}", kind, hex(material), sha512));
